@@ -140,6 +140,42 @@ def chk_bc(c):
         assert idx3.tolist() == allb
 
 
+def chk_mp_bc(c):
+    """Multipatch.compute_dirichlet_bcs: glued numbering, every listed face, any order of the conditions"""
+    from pyiga import assemble, bspline, geometry
+    rng = np.random.RandomState(c['seed'])
+    kvs = tuple(bspline.make_knots(c['p'], 0.0, 1.0, n) for n in c['n'])
+    offs = [(0, 0), (1, 0), (0, 1)] if c['shape'] == 'L' else [(0, 0), (1, 0), (0, 1), (1, 1)]
+    geos = [geometry.unit_square().translate((float(a), float(b))) for (a, b) in offs]
+    MP = assemble.Multipatch([(kvs, g) for g in geos], automatch=True)
+    lin = lambda x, y: 1.0 + x + 2.0 * y
+    conds = [(p, face) for p in range(len(geos)) for face in ('left', 'right', 'bottom', 'top')]
+    # keep only faces on the outer boundary of the union (an interface face is not a Dirichlet face)
+    def outer(p, face):
+        a, b = offs[p]
+        nb = {'left': (a - 1, b), 'right': (a + 1, b), 'bottom': (a, b - 1), 'top': (a, b + 1)}[face]
+        return nb not in offs
+    conds = [cf for cf in conds if outer(*cf)]
+    order = list(rng.permutation(len(conds)))
+    conds = [conds[k] for k in order][:c['ncond']]
+    idx, val = MP.compute_dirichlet_bcs([(p, face, lin) for (p, face) in conds])
+    idx = np.asarray(idx)
+    assert len(set(idx.tolist())) == len(idx), 'a global dof is listed twice'
+    ug = np.zeros(MP.numdofs)
+    ug[idx] = val
+    N = tuple(kv.numdofs for kv in kvs)
+    expected = set()
+    for (p, face) in conds:
+        li, lv = assemble.compute_dirichlet_bc(kvs, geos[p], face, lin)
+        up = MP.global_to_patch(p) @ ug
+        assert np.allclose(up[li], lv, atol=1e-12), 'patch %d face %s: prescribed values are not the boundary data (max error %g)' % (p, face, np.max(np.abs(up[li] - lv)))
+        expected |= set(np.asarray(MP.patch_to_global_idx(p))[li].tolist())
+    assert set(idx.tolist()) == expected, 'constrained dofs: %d missing, %d spurious' % (len(expected - set(idx.tolist())), len(set(idx.tolist()) - expected))
+    idx2, val2 = MP.compute_dirichlet_bcs([(p, face, lin) for (p, face) in sorted(conds)])
+    o1, o2 = np.argsort(idx), np.argsort(np.asarray(idx2))
+    assert np.array_equal(idx[o1], np.asarray(idx2)[o2]) and np.allclose(np.asarray(val)[o1], np.asarray(val2)[o2]), 'result depends on the order of the conditions'
+
+
 def chk_combine(c):
     from pyiga import assemble
     parts = [(np.array(i, dtype=int), np.array(v, dtype=float)) for i, v in c['parts']]
@@ -183,11 +219,13 @@ def chk_bc1d(c):
         assert idx.tolist() == [i] and np.allclose(val, [3.0 if i == 0 else 7.0])
 
 
-CHECKS = {'bc1d': chk_bc1d, 'restricted': chk_restricted, 'slice': chk_slice, 'bc': chk_bc, 'combine': chk_combine, 'initial': chk_initial}
+CHECKS = {'mp_bc': chk_mp_bc, 'bc1d': chk_bc1d, 'restricted': chk_restricted, 'slice': chk_slice, 'bc': chk_bc, 'combine': chk_combine, 'initial': chk_initial}
 
 
 def generate(tier, rng):
     quick = tier == 'quick'
+    for k in range(12 if quick else 60):
+        yield 'mp_bc', {'seed': k, 'p': 1 + k % 3, 'n': [3 + k % 2, 4], 'shape': ['L', 'square'][k % 2], 'ncond': 3 + k % 6}
     seed = 0
     for n in range(1, 5 if quick else 6):
         for r in range(0, n + 1):
